@@ -105,7 +105,8 @@ def fmt_num(v: Fraction) -> str:
     f = float(v)
     s = repr(f)
     if "e" in s or "E" in s:
-        s = format(f, "f")
+        from decimal import Decimal
+        s = format(Decimal(s), "f")  # plain decimal notation without losing digits
     return s
 
 
